@@ -12,6 +12,30 @@ sys.path.insert(0, VERIF)
 NOT_APPLICABLE = {}
 PENDING = 'static rules designed in DESIGN.md §4 but not yet armed in this tree; not claimed until the check exists'
 
+# the deciding method of each check, named per property (rule kinds of DESIGN.md §3)
+TECHNIQUE = {
+ 'C01': 'typestate over the CFG of the producer entry and the consume callback (enqueue/take exactly once), effect exclusion over the whole-program call graph (no blocking leaf reachable from OnEnd/OnEmit), reaching-definition dependence of the consumed count',
+ 'C02': 'dominance / post-dominance on the element-level flow graph (ticket before snapshot, publish after export, join before exporter shutdown), three-valued aggregation walk (no true after a false child), fan-out completeness by loop flow-graph query, who-may-call over the call graph, blocking-leaf effect table (timed waits only)',
+ 'C03': 'lock-set dataflow at Export call sites, who-may-call by call-graph reachability from the single worker entry, reaching-definition bound analysis of the batch count over linear forms, guard dominance (non-empty before Export)',
+ 'C04': 'lock-set + null-edge dominance at every recordable use, typestate of End, interface/fan-out completeness over sibling overriders, type-level ownership facts of recordable fields, parameter-forwarding dataflow of every setter',
+ 'C05': 'bit-level provenance dataflow of the trace-flags byte, decision table by pinning for parent precedence, source (origin) dependence of ids and trace state, thread-storage type facts',
+ 'C06': 'lock-field association dataflow on record/collect, forwarding of every instrument overload, fan-out completeness, Merge/Diff orientation by scenario tables, per-reader bookkeeping dependence',
+ 'C07': 'lock-set dataflow on Aggregate, comparator-domain and guard agreement over linear forms (inclusive upper bucket), sentinel constants, configuration forwarding to every CreateAggregation call site',
+ 'C08': 'type-level facts of the series key (sorted map), fold completeness of the hash over every key/value, equality compares contents, typestate of the cached hash, limit forwarding to every table, guard agreement of the overflow arithmetic, call-site discipline for string_view lookups',
+ 'C09': 'constant-bounded buffer partition (range analysis of subscripts), exhaustive 256-entry digit tables of writer and reader, region tables of the extraction guards over linear quantities, validity-gate dominance, no-mutable-static re-entrancy facts',
+ 'C10': 'who-may-write (no store into an existing Context or list node), thread-storage type facts, guard/shape obligations of Detach/Push/Resize as relations over pending counts, destructor typestate of Token and Scope, exact-key comparison in lookups',
+ 'C11': 'ownership typestate of Add/SwapIfNull/Swap/Reset, guard agreement over linear forms (fullness, capacity, slot, tail), minimum memory-order table per atomic operation, spin-lock return-only-when-acquired path obligations',
+ 'C12': 'dependence/effect analysis of ShouldSample (trace id and threshold only), exact extreme-ratio guards, interval analysis of the threshold arithmetic (carry rule), decision table by pinning for the parent-based sampler',
+ 'C13': 'type-level ownership facts of log recordables, correlation copies all identity fields (forwarding), gate dominance and order in EmitLogRecord, fan-out completeness, parameter-forwarding dataflow of every setter',
+ 'C14': 'who-may-write (no member writes this), validity-gate dominance before construction, copy-excludes-key and allocation-fits-copy relations, whole-key comparison, byte-set character classes, regex normal-form language equality with the W3C grammar',
+ 'C15': 'who-may-write, limit guards on the whole member (linear guard agreement), validity conjunction, encoder/decoder alphabets as exhaustive byte sets, context threading through the composite propagator (forwarding dataflow)',
+ 'C16': 'exhaustive table of the sampling field (256 bytes x length classes), constant-bounded buffer partition, validity-gate dominance before install, single-header precedence decision table, decode-result-checked-or-zero-filled sibling contract',
+ 'C17': 'lock-set dataflow on the callback registry, each-callback-once loop flow-graph query, removal predicate truth table, Observe-before-collect ordering, tie-break orientation scenario table, monotonicity/temporality decision tables over every enumerator',
+ 'C18': 'Merge orientation scenario table, Create chain order, out-parameter typestate of every environment reader, errno discipline typestate, overflow guards with exact tick ratios (linear guard agreement), resource forwarding to every signal',
+ 'C19': 'call-site discipline over resolved types (string_view::data into NUL-terminated APIs), gate dominance in Create*, decision tables of the view/meter matchers by pinning, first-match-wins by pinning, locked lookup-then-create lock-set dataflow, regex normal-form language equality',
+ 'C20': 'assignment typestate of shared_ptr/unique_ptr (source taken before release), who-may-write, type-level compile witnesses (static_assert batch, -fsyntax-only), length/compare guard agreement of string_view, hash dependence on characters only',
+}
+
 
 def main():
     ids = [json.loads(l)['id'] for l in open(os.path.join(VERIF, 'properties.jsonl'))]
@@ -47,8 +71,7 @@ def main():
                            'tables in /verif/sa, the configured preprocessor variant (ABI v1, nostd types, regex validators, '
                            'no preview features). Virtual calls into user-supplied exporters/samplers/handlers are opaque; '
                            'exceptional control flow is not modelled.'),
-            'technique': getattr(mod, 'TECHNIQUE', 'repository-specific static analysis over clang AST/CFG: typestate, dominance, '
-                                 'lock-set and reaching-definition dataflow, who-may-call over the call graph, guard agreement'),
+            'technique': 'static analysis over the clang 14 AST/CFG of /repo (no execution, no solver): ' + getattr(mod, 'TECHNIQUE', TECHNIQUE[pid]),
         })
     m = {
         'version': 1,
